@@ -48,11 +48,21 @@ def run_sched(run, thorough):
     acc, tsan = build_tools()
     # ---- access-monitored programs
     res = []
+    nsh = max(1, int(os.environ.get("VERIF_JOBS", "16")))
     for argv in (["2", "0"], ["3", "400" if thorough else "80"]):
-        r = subprocess.run([acc] + argv, capture_output=True, text=True, timeout=3000)
-        if r.returncode != 0 or not r.stdout.strip():
-            raise RuntimeError("sched-acc failed: rc=%d %s" % (r.returncode, r.stderr[-500:]))
-        res.append(json.loads(r.stdout.strip().splitlines()[-1]))
+        # the programs are independent of each other: shard them over processes (each prepares its own context and reference)
+        procs = [subprocess.Popen([acc] + argv, stdout=subprocess.PIPE, stderr=subprocess.PIPE, text=True, env=dict(os.environ, SCHED_SHARD="%d/%d" % (k, nsh))) for k in range(nsh)]
+        parts = []
+        for p_ in procs:
+            so, se = p_.communicate(timeout=3000)
+            if p_.returncode != 0 or not so.strip():
+                raise RuntimeError("sched-acc failed: rc=%d %s" % (p_.returncode, se[-500:]))
+            parts.append(json.loads(so.strip().splitlines()[-1]))
+        m = {"mode": "acc", "ops": parts[0]["ops"], "dependent": [d_ for x in parts for d_ in x["dependent"]]}
+        for key in ("programs", "visible_operations", "dependent_programs", "wrong_outputs", "log_overflow"):
+            m[key] = sum(x[key] for x in parts)
+        m["max_cells"] = max(x["max_cells"] for x in parts)
+        res.append(m)
     programs = sum(x["programs"] for x in res)
     visible = sum(x["visible_operations"] for x in res)
     dep = [d for x in res for d in x["dependent"]]
